@@ -176,6 +176,12 @@ func KthScenarios() []Scenario {
 		cs = append(cs, e.CreateIndex(sns, IndexSpec{Key: d("z", int32(1)), Name: "a_1", Expire: -1}))                     // same name, other key
 		cs = append(cs, e.CreateIndex(sns, IndexSpec{Key: d("a", int32(1)), Unique: false, Expire: -1}))                   // same name+key, other options
 		cs = append(cs, e.CreateIndex(sns, IndexSpec{Key: d("a", int32(1)), Unique: true, Expire: -1}))                    // identical: no-op
+		cs = append(cs, e.CreateIndex(sns, IndexSpec{Key: d("a", int32(1)), Unique: true, Partial: d("a", d("$gte", int32(0))), Name: "a_1", Expire: -1})) // same name and key, now partial: conflict
+		cs = append(cs, e.CreateIndex(sns, IndexSpec{Key: d("a", int32(1)), Unique: true, Expire: 30, Name: "a_1"}))      // same name and key, now TTL: conflict
+		cs = append(cs, e.CreateIndex(sns, IndexSpec{Key: d("p", int32(1)), Partial: d("p", d("$gt", int32(1))), Name: "pp", Expire: -1}))
+		cs = append(cs, e.CreateIndex(sns, IndexSpec{Key: d("p", int32(1)), Name: "pp", Expire: -1}))                     // partial index re-created without the filter: conflict
+		cs = append(cs, e.CreateIndex(sns, IndexSpec{Key: d("p", int32(1)), Partial: d("p", d("$gt", int32(2))), Name: "pp", Expire: -1})) // another filter: conflict
+		cs = append(cs, e.CreateIndex(sns, IndexSpec{Key: d("p", int32(1)), Partial: d("p", d("$gt", int32(1))), Name: "pp", Expire: -1})) // identical: no-op
 		cs = append(cs, e.CreateIndex(sns, IndexSpec{Key: d("a", int32(1), "b", int32(1)), Expire: 10}))                   // compound TTL
 		cs = append(cs, e.DropIndex(sns, "nope"), e.DropIndex(sns, "_id_"), e.DropIndex("d.none", "a_1"), e.DropAllIndexes("d.none"))
 		cs = append(cs, e.DropAllIndexes(sns), e.ListIndexes(sns))
